@@ -81,6 +81,20 @@ def alias_check(parent_factory, cls, row, rows, value, rec, rowkey, case, k, ext
                           row=rowkey)
             return
         rec.count('rows_aliased')
+        # an element that belongs to another parent, assigned through this spelling, is copied: the other parent keeps it
+        src = parent_factory()
+        setattr(src, row.name.lower(), value)
+        child = src.children.indexes[row.name][0]
+        dst = parent_factory()
+        setattr(dst, wname, child)
+        rec.count('element_assignments_through_aliases')
+        kept = src.children.indexes.get(row.name, [])
+        got = dst.children.indexes.get(row.name, [])
+        if len(kept) != 1 or kept[0] is not child or child.parent is not src or len(got) != 1 or got[0] is child or \
+                got[0].to_er7() != child.to_er7():
+            rec.violation('assignment-through-alias-did-not-copy:%s' % wkind.split('-')[0], case,
+                          {'written_as': wname, 'source_keeps': len(kept), 'target_has': len(got)}, row=rowkey)
+            return
         if row.card[1] == -1:
             # with repetitions: a write through any spelling replaces the first one, and every spelling then lists the same
             # children in the order the parent holds them
@@ -301,6 +315,19 @@ def run_components(spec, rec):
                           ('positional-upper', '%s_%d' % (host.upper(), crow.num))]
             alias_check(lambda: core.Field(host, version=v), core.Field, crow, comps, val, rec, rowkey, case, k,
                         extra=positional)
+            if prev_host and prev_host != host and k % 3 == 0:
+                # the same names on a field of ANOTHER datatype overridden to this one (TOLERANT): constructor argument and
+                # assignment after construction
+                def overridden(how=k % 2):
+                    if how:
+                        return core.Field(prev_host, datatype=dt, version=v)
+                    f_ = core.Field(prev_host, version=v)
+                    f_.datatype = dt
+                    return f_
+                pos2 = [('positional-lower', '%s_%d' % (prev_host.lower(), crow.num))]
+                alias_check(overridden, core.Field, crow, comps, val, rec, rowkey, dict(case, overridden_host=prev_host),
+                            k, extra=pos2)
+                rec.count('rows_aliased_on_overridden_fields')
             # sub-components: name / long name on the component, positional path on the field
             if crow.kind == 'sequence' and not tables.is_base(v, crow.datatype):
                 subs = tables.components(v, crow.datatype)
